@@ -328,6 +328,62 @@ def r4_json(cx):
     cx.require(len(rets) == 1 and U(rets[0].value) == "Top(data)[0]", ld, "loads returns the value (first element of Top's sequence)", construct=short(rets[0]) if rets else "?")
 
 
+INPLACE = {ast.BitOr: "Choice", ast.Add: "Sequence", ast.Mult: "Lift"}
+
+
+def _strip(e):
+    """Strip wrappers that return the *same* object: ``x % "name"``."""
+    while isinstance(e, ast.BinOp) and isinstance(e.op, ast.Mod):
+        e = e.left
+    return e
+
+
+def _bare_kind(repo, mod, e, depth=0):
+    """'Choice' / 'Sequence' / 'Lift' when the expression evaluates to a bare in-place-extensible combinator object."""
+    e = _strip(e)
+    if isinstance(e, ast.BinOp) and type(e.op) in INPLACE:
+        return INPLACE[type(e.op)]
+    if isinstance(e, ast.Call) and call_name(e) in ("Choice", "Sequence", "Lift"):
+        return call_name(e)
+    if isinstance(e, ast.Name) and depth < 4:
+        r = repo.resolve_dotted(mod, e.id)
+        if r[0] == "const":
+            return _bare_kind(repo, r[1], r[3], depth + 1)
+    return None
+
+
+def r5_no_shared_extension(cx):
+    """Choice.__or__, Sequence.__add__ and Lift.__mul__ append to the object in place.  A *named* bare
+    Choice/Sequence/Lift that is extended again elsewhere is silently changed for every rule that shares it
+    (the library itself wraps such objects in Wrapper(...) for that reason)."""
+    cx.rule("C19.R5", "no shared (named) Choice / Sequence / Lift is extended in place by another rule", floor=20)
+    mods = [cx.repo.module(n) for n in ("insights.core.taglang", "insights.parsr.examples.json_parser", "insights.parsr.iniparser", PS)]
+    # the in-place behaviour itself (otherwise the rule is moot)
+    pm = cx.repo.module(PS)
+    inplace = {}
+    for cls, meth in (("Choice", "__or__"), ("Sequence", "__add__"), ("Lift", "__mul__")):
+        fn = pm.func("%s.%s" % (cls, meth), "C19.R5")
+        rets = [r for r in walk_body(fn.body) if isinstance(r, ast.Return)]
+        inplace[cls] = bool(rets) and U(rets[0].value) == "self.add_child(%s)" % params(fn)[1]
+    n = 0
+    for m in mods:
+        for st in ast.walk(m.tree):
+            if not isinstance(st, ast.BinOp) or type(st.op) not in INPLACE:
+                continue
+            kind = INPLACE[type(st.op)]
+            left = st.left
+            if not isinstance(left, ast.Name):
+                continue
+            n += 1
+            lk = _bare_kind(cx.repo, m, left)
+            if lk == kind and inplace.get(kind):
+                cx.bad(st, "'%s' is a named %s object; '%s %s ...' appends to it in place, so every other rule using '%s' sees the extra alternative/member (wrap it: Wrapper(%s))" % (
+                    left.id, kind, left.id, {"Choice": "|", "Sequence": "+", "Lift": "*"}[kind], left.id, left.id), construct=short(st, 100))
+            else:
+                cx.ok(st, "left operand '%s' is not a bare %s (a new combinator is created)" % (left.id, kind), construct=short(st, 80))
+    cx.extra["combinator_expressions_checked"] = n
+
+
 def run(cx):
     cx.extra["explanation"] = ("C19: def-use facts on the position variable of every core combinator's process() (origin of the position handed to each child call, whether a child's result "
                                "reaches the function result, what each handler does) compared with the PEG protocol table; effect rule (no writes to the input, context only through error "
@@ -338,3 +394,4 @@ def run(cx):
     cx.guard(r2_no_trace)
     cx.guard(r3_taglang)
     cx.guard(r4_json)
+    cx.guard(r5_no_shared_extension)
